@@ -9,7 +9,64 @@ package dirk
 //@ type Service
 //@   guarded_by mutex: accounts (replaced), pubKeys (replaced)
 //@   guarded_by walletsMutex: wallets
+//@   // established by New (parseAndCheckParameters rejects nil for these)
+//@   valid self.validatorsManager != nil && self.currentEpochProvider != nil
 //@
 //@ func (*Service).fetchAccountsForWallet
+//@   requires !isnil(wallet)
 //@   // assumed of the wallet library: no nil accounts are sent
 //@   chaninv accounts (m): !isnil(m)
+//@   modifies nothing
+//@
+//@ // ---- C13: the accounts reported for an epoch are exactly the known accounts whose validator is active in it ----
+//@ // go-eth2-client's ValidatorToState, as its code reads (assumed, the library is a dependency): with no balance
+//@ // given, a validator is pending before its activation epoch, active until its exit epoch (exiting or slashed
+//@ // once an exit epoch is set), exited until its withdrawable epoch, and done with once it has no balance
+//@ extern github.com/attestantio/go-eth2-client/api/v1.ValidatorToState
+//@   requires validator != nil && balance == nil
+//@   ensures (result == api.ValidatorStatePendingInitialized || result == api.ValidatorStatePendingQueued) <==> validator.ActivationEpoch > currentEpoch
+//@   ensures result == api.ValidatorStateActiveOngoing <==> (validator.ActivationEpoch <= currentEpoch && validator.ExitEpoch == farFutureEpoch)
+//@   ensures result == api.ValidatorStateActiveExiting <==> (validator.ActivationEpoch <= currentEpoch && validator.ExitEpoch != farFutureEpoch && validator.ExitEpoch > currentEpoch && !validator.Slashed)
+//@   ensures result == api.ValidatorStateActiveSlashed <==> (validator.ActivationEpoch <= currentEpoch && validator.ExitEpoch != farFutureEpoch && validator.ExitEpoch > currentEpoch && validator.Slashed)
+//@   ensures result == api.ValidatorStateWithdrawalDone <==> (validator.ActivationEpoch <= currentEpoch && validator.ExitEpoch != farFutureEpoch && validator.ExitEpoch <= currentEpoch && validator.WithdrawableEpoch <= currentEpoch && validator.EffectiveBalance == 0)
+//@   ensures result == api.ValidatorStatePendingInitialized || result == api.ValidatorStatePendingQueued || result == api.ValidatorStateActiveOngoing || result == api.ValidatorStateActiveExiting || result == api.ValidatorStateActiveSlashed || result == api.ValidatorStateExitedUnslashed || result == api.ValidatorStateExitedSlashed || result == api.ValidatorStateWithdrawalPossible || result == api.ValidatorStateWithdrawalDone
+//@
+//@ // what the validators manager knows of the public keys asked for (it answers only for those, which are the keys
+//@ // of the account map)
+//@ spec func knownValidators() map[phase0.ValidatorIndex]*phase0.Validator
+//@ // activation epoch reached, exit epoch not reached, and not slashed on the way out
+//@ spec func activeIn(v *phase0.Validator, e phase0.Epoch, far phase0.Epoch) bool = v.ActivationEpoch <= e && (v.ExitEpoch == far || (v.ExitEpoch > e && !v.Slashed))
+//@ // for sync committees: activated and not yet withdrawn
+//@ spec func syncEligibleIn(v *phase0.Validator, e phase0.Epoch, far phase0.Epoch) bool = v.ActivationEpoch <= e && !(v.ExitEpoch != far && v.ExitEpoch <= e && v.WithdrawableEpoch <= e && v.EffectiveBalance == 0)
+//@
+//@ func (*Service).ValidatingAccountsForEpoch
+//@   requires nolocks() && epoch <= 9223372036854775807
+//@   assumes call ValidatorsByPubKey#1 (m): m == knownValidators() && (forall i phase0.ValidatorIndex :: in(m, i) ==> m[i] != nil && in(s.accounts, m[i].PublicKey) && !isnil(s.accounts[m[i].PublicKey]))
+//@   loop (*Service).accountsForEpochWithFilter.1
+//@     invariant forall i phase0.ValidatorIndex :: in(validatingAccounts, i) ==> in(validators, i) && activeIn(validators[i], epoch, s.farFutureEpoch) && validatingAccounts[i] == accounts[validators[i].PublicKey]
+//@     invariant accounts == s.accounts
+//@     invariant forall i phase0.ValidatorIndex :: visited(i) && activeIn(validators[i], epoch, s.farFutureEpoch) ==> in(validatingAccounts, i)
+//@   ensures result1 == nil
+//@   ensures forall i phase0.ValidatorIndex :: in(result0, i) <==> (in(knownValidators(), i) && activeIn(knownValidators()[i], epoch, s.farFutureEpoch))
+//@   // keyed by the validator's own index
+//@   ensures forall i phase0.ValidatorIndex :: in(result0, i) ==> result0[i] == s.accounts[knownValidators()[i].PublicKey]
+//@
+//@ func (*Service).SyncCommitteeAccountsForEpoch
+//@   requires nolocks() && epoch <= 9223372036854775807
+//@   assumes call ValidatorsByPubKey#1 (m): m == knownValidators() && (forall i phase0.ValidatorIndex :: in(m, i) ==> m[i] != nil && in(s.accounts, m[i].PublicKey) && !isnil(s.accounts[m[i].PublicKey]))
+//@   loop (*Service).accountsForEpochWithFilter.1
+//@     invariant forall i phase0.ValidatorIndex :: in(validatingAccounts, i) ==> in(validators, i) && syncEligibleIn(validators[i], epoch, s.farFutureEpoch) && validatingAccounts[i] == accounts[validators[i].PublicKey]
+//@     invariant accounts == s.accounts
+//@     invariant forall i phase0.ValidatorIndex :: visited(i) && syncEligibleIn(validators[i], epoch, s.farFutureEpoch) ==> in(validatingAccounts, i)
+//@   ensures result1 == nil
+//@   ensures forall i phase0.ValidatorIndex :: in(result0, i) <==> (in(knownValidators(), i) && syncEligibleIn(knownValidators()[i], epoch, s.farFutureEpoch))
+//@   ensures forall i phase0.ValidatorIndex :: in(result0, i) ==> result0[i] == s.accounts[knownValidators()[i].PublicKey]
+//@
+//@ // C13: a refresh that obtains no account from the remote signer keeps what is known
+//@ func (*Service).refreshAccounts
+//@   requires nolocks()
+//@   // how many accounts are known when the decision is taken (under the lock)
+//@   ghost known Int
+//@   assumes call Lock#1 (): known == len(s.accounts)
+//@   ensures len(accounts) == 0 && known != 0 ==> s.accounts == old(s.accounts) && s.pubKeys == old(s.pubKeys)
+//@   ensures !(len(accounts) == 0 && known != 0) ==> s.accounts == accounts && s.pubKeys == pubKeys
